@@ -4,6 +4,8 @@
 package core
 
 import (
+	"encoding/json"
+	"path/filepath"
 	"sync"
 	"fmt"
 	"go/token"
@@ -77,8 +79,20 @@ func Short(s string) string {
 func Load(repo string, overlay map[string][]byte) (*World, error) {
 	t0 := time.Now()
 	os.Unsetenv("GOWORK")
+	if overlay == nil {
+		var oerr error
+		if overlay, oerr = envOverlay(repo); oerr != nil {
+			return nil, oerr
+		}
+	}
+	mode := packages.LoadAllSyntax
+	fast := os.Getenv("KVERIF_FASTLOAD") != ""
+	if fast {
+		// self-test sweeps only: dependencies from export data (types, no bodies). Never used by a registered check.
+		mode = packages.LoadSyntax
+	}
 	cfg := &packages.Config{
-		Mode:    packages.LoadAllSyntax,
+		Mode:    mode,
 		Dir:     repo,
 		Tests:   false,
 		Overlay: overlay,
@@ -110,7 +124,13 @@ func Load(repo string, overlay map[string][]byte) (*World, error) {
 		w.PkgByPath[p.PkgPath] = p
 	}
 	w.Fset = pkgs[0].Fset
-	prog, spkgs := ssautil.AllPackages(pkgs, ssa.InstantiateGenerics)
+	var prog *ssa.Program
+	var spkgs []*ssa.Package
+	if fast {
+		prog, spkgs = ssautil.Packages(pkgs, ssa.InstantiateGenerics)
+	} else {
+		prog, spkgs = ssautil.AllPackages(pkgs, ssa.InstantiateGenerics)
+	}
 	w.Prog = prog
 	for i, sp := range spkgs {
 		if sp == nil {
@@ -150,6 +170,32 @@ func Load(repo string, overlay map[string][]byte) (*World, error) {
 	w.NumFns = len(w.Fns)
 	w.LoadSeconds = time.Since(t0).Seconds()
 	return w, nil
+}
+
+// envOverlay reads KVERIF_OVERLAY: a JSON object {"<path relative to the repository>": "<file holding the replacement text>"}.
+// It lets the self-test analyse a single-site variant of the working tree without copying the tree (selftest/sweep.py).
+func envOverlay(repo string) (map[string][]byte, error) {
+	p := os.Getenv("KVERIF_OVERLAY")
+	if p == "" {
+		return nil, nil
+	}
+	b, err := os.ReadFile(p)
+	if err != nil {
+		return nil, fmt.Errorf("overlay: %w", err)
+	}
+	m := map[string]string{}
+	if err := json.Unmarshal(b, &m); err != nil {
+		return nil, fmt.Errorf("overlay: %w", err)
+	}
+	out := map[string][]byte{}
+	for rel, src := range m {
+		c, err := os.ReadFile(src)
+		if err != nil {
+			return nil, fmt.Errorf("overlay: %w", err)
+		}
+		out[filepath.Join(repo, rel)] = c
+	}
+	return out, nil
 }
 
 // RootFn returns the outermost enclosing named function of fn.
